@@ -295,7 +295,8 @@ func DrawBlock(c *choice.Stream, cols []ColSpec, rows int) *refproto.Block {
 	b := &refproto.Block{Rows: rows, BucketNum: -1}
 	r := c.Sub("block.vals")
 	for _, cs := range cols {
-		b.Cols = append(b.Cols, refproto.Column{Name: cs.Name, Type: cs.Type, Vals: gen.Values(r, cs.RT, rows)})
+		// the type as this server spells it (Decimal(P, S), time zones): same wire format
+		b.Cols = append(b.Cols, refproto.Column{Name: cs.Name, Type: gen.ServerSpelling(c, cs.Type), Vals: gen.Values(r, cs.RT, rows)})
 	}
 	return b
 }
@@ -366,7 +367,7 @@ func blockEvent(kind string, cols []refproto.Column, rows int) string {
 	var sb strings.Builder
 	fmt.Fprintf(&sb, "%s rows=%d", kind, rows)
 	for _, c := range cols {
-		fmt.Fprintf(&sb, " | %s %s %s", c.Name, c.Type, fmtVals(c.Vals))
+		fmt.Fprintf(&sb, " | %s %s %s", c.Name, gen.LibrarySpelling(c.Type), fmtVals(c.Vals))
 	}
 	return sb.String()
 }
